@@ -105,8 +105,8 @@ Lemma upd_same : forall s o f, heap (upd o f s) o = f (heap s o).
 Proof. intros. cbn. rewrite Nat.eqb_refl. reflexivity. Qed.
 Lemma upd_other : forall s o f x, x <> o -> heap (upd o f s) x = heap s x.
 Proof. intros. cbn. destruct (Nat.eqb x o) eqn:E; auto. apply Nat.eqb_eq in E. contradiction. Qed.
-Lemma alive_set_expired : forall x ob, alive (set_expired x ob) = alive ob.
-Proof. intros x []; reflexivity. Qed.
+Lemma alive_unexpire : forall ob, alive (set_in_val true (set_expired false ob)) = alive ob.
+Proof. intros []; reflexivity. Qed.
 
 (* ---------------------------------------------------------------- get *)
 Lemma inv_load : forall i k s, Inv s -> Inv (load i k s).
@@ -123,8 +123,8 @@ Proof.
       destruct (in_map (heap s1 o)) eqn:M1.
       * assert (A1 := map_alive s1 o I1 M1).
         apply inv_slot_set.
-        -- apply inv_upd; auto. intros Ok. split; [apply tr_set_expired; auto|rewrite alive_set_expired; exact A1].
-        -- intros o' H. inversion H. subst o'. rewrite upd_same, alive_set_expired. exact A1.
+        -- apply inv_upd; auto. intros Ok. split; [apply tr_unexpire; auto|rewrite alive_unexpire; exact A1].
+        -- intros o' H. inversion H. subst o'. rewrite upd_same, alive_unexpire. exact A1.
       * apply inv_slot_set; auto. intros ? H; discriminate.
     + apply inv_slot_set; auto. intros o' H. inversion H. subst o'. exact A.
   - set (s1 := rc_collect (flush s)).
@@ -145,21 +145,38 @@ Proof.
       * apply inv_slot_set; auto. intros ? H; discriminate.
 Qed.
 
+Lemma inv_modev : forall s o w, Inv s -> In (Some o) (slots s) -> Inv (upd o (modified_event w (next_val s)) s).
+Proof.
+  intros s o w I Hin.
+  assert (Al : alive (heap s o) = true) by (apply (i_slots s I); exact Hin).
+  apply inv_upd; auto.
+  intros Ok. split; [apply tr_modified_event; auto|].
+  revert Al. generalize (heap s o). intros ob Al. unfold modified_event. destruct w, ob; cbn in *;
+  repeat match goal with |- context [if ?c then _ else _] => destruct c end; exact Al.
+Qed.
+
 (* ---------------------------------------------------------------- every operation *)
 Lemma inv_step : forall o s, Inv s -> Inv (fst (step o s)).
 Proof.
-  intros o s I. destruct o as [i k|i|i|i| | | |i| |i|i j]; cbn [step fst].
+  intros o s I. destruct o as [i k|i|i|i|i|i w0|i| | | |i| |i|i j]; cbn [step fst].
   - apply inv_load. exact I.
   - apply inv_slot_set.
     + apply inv_bump_val. apply inv_new. exact I.
     + intros o H. inversion H. subst o. cbn. rewrite Nat.eqb_refl. reflexivity.
   - destruct (slot_get s i) as [o|] eqn:G; cbn [fst]; auto.
-    apply inv_bump_val. apply inv_upd; auto.
+    apply inv_bump_val. apply (inv_modev s o false); auto. apply (slot_get_In s i o G).
+  - destruct (slot_get s i) as [o|] eqn:G; cbn [fst]; auto.
+    apply inv_bump_val. apply (inv_modev s o true); auto. apply (slot_get_In s i o G).
+  - destruct (slot_get s i) as [o|] eqn:G; cbn [fst]; auto.
+    destruct (in_val (heap s o)); cbn [fst]; auto.
+    apply inv_bump_val. apply (inv_modev s o false); auto. apply (slot_get_In s i o G).
+  - destruct (slot_get s i) as [o|] eqn:G; cbn [fst]; auto.
+    destruct (persistent (heap s o)) eqn:P; cbn [fst]; auto.
+    apply inv_upd; auto.
     + apply (i_slots s I). apply (slot_get_In s i o G).
     + assert (Al : alive (heap s o) = true) by (apply (i_slots s I); apply (slot_get_In s i o G)).
-      intros Ok. split; [apply tr_modified_event; auto|].
-      revert Al. generalize (heap s o). intros ob Al. unfold modified_event. destruct ob; cbn in *.
-      repeat match goal with |- context [if ?c then _ else _] => destruct c end; exact Al.
+      intros Ok. split; [apply tr_expire_attr; auto|].
+      revert Al. generalize (heap s o). intros ob Al. unfold expire_attr. destruct w0, ob; exact Al.
   - apply inv_slot_set; auto. intros ? H; discriminate.
   - apply inv_collect. exact I.
   - apply inv_flush. exact I.
